@@ -198,4 +198,23 @@ Fixpoint draw (o : cop) (n : nat) (inv : bool) (k : nat) (xi : noise) {struct o}
   | COther => Refuse RNotImplemented      (* EndomorphicOperator.draw_sample: raise NotImplementedError *)
   end.
 
+(* ---- ScalingOperator._get_fct(from_inverse)  (scaling_operator.py) ---------------------------
+     fct = self._factor
+     if (fct.imag != 0. or fct.real < 0. or (fct.real == 0. and from_inverse)):
+         raise ValueError("operator not positive definite")
+     return 1./np.sqrt(fct) if from_inverse else np.sqrt(fct) *)
+Definition get_fct (c : T) (cplx inv : bool) : res T :=
+  if cplx || tneg c || (tzero c && inv) then Refuse RValueError
+  else Ok (if inv then tinv (tsqrt c) else tsqrt c).
+
+(* ---- DiagonalOperator.get_sqrt()  (diagonal_operator.py) -------------------------------------
+     if self._complex or self._diagmin < 0.:
+         raise ValueError("get_sqrt() works only for positive definite operators.")
+     return self._from_ldiag((), np.sqrt(self._ldiag), self._dtype, self._trafo)
+   (_from_ldiag keeps _dtype and _trafo; _fill_rest recomputes _complex from the dtype of the new
+    _ldiag, which is real here; NO zero-entry guard: a semi-definite diagonal has a square root) *)
+Definition diag_get_sqrt (d : vec) (cplx : bool) (trafo : nat) (dt : dtype) (n : nat) : res cop :=
+  if cplx || any_lt0 d n then Refuse RValueError
+  else Ok (CDiag (fun i => tsqrt (d i)) false trafo dt).
+
 End Ops.
